@@ -79,7 +79,7 @@ struct RunCtl
     bool zero_instead = false;
     std::vector<Fault> forced;  // FLT_RNG_FORCE
     int genmode = 0;
-    u64 lat_n = 0, lat_base = 0, lat_points = 0;
+    u64 lat_n = 0, lat_base = 0, lat_points = 0, lat_active = 0;   // lat_active 0: all dimensions
     std::vector<u64> lat_selector;
     u64 sseed = 0;
     int rorder = 0;
